@@ -1,3 +1,4 @@
+import SamlModel.Props.HandlerGen
 import SamlModel.Props.SsoLemmas
 import SamlModel.Props.FnLemmas
 import SamlModel.Props.C16
@@ -360,9 +361,32 @@ theorem C09_attrquery (o : Ora) (i : AttrQuery.In) (hsp : ∀ sp, i.sp = some sp
 theorem C09_newSP_certs (o : Ora) (d : md_SPSSODescriptorType) : GetCertsFromKeyDescriptors o d.KeyDescriptor ≠ .panic :=
   getCerts_noPanic o d.KeyDescriptor
 
+/-- **C09 on the regenerated callback handler**: `callbackHandleFunc` as go2lean regenerates it from login.go on this run
+    (nil dereferences and out-of-range indexing of the Go source are `.panic` in the target semantics) does not panic
+    and does not dereference a nil `Response` / message when it writes, for any answer of its environment -/
+theorem C09_generated_handler (o : Ora) (cfg : provider_IdentityProviderConfig) (fmt : String) (exp : Int)
+    (hsome : (CallbackGen.userinfo o).1 = none → (CallbackGen.userinfo o).2.isSome) :
+    IdentityProvider_callbackHandleFunc o (CallbackGen.idp cfg fmt exp) ≠ .panic ∧
+    ∀ resp m, IdentityProvider_callbackHandleFunc o (CallbackGen.idp cfg fmt exp) = .ok [Eff.sendBackResponse resp m] →
+      resp.isSome ∧ m.isSome := by
+  have h := HandlerGen.handler_refines o cfg fmt exp hsome
+  constructor
+  · intro hp
+    rw [hp] at h
+    simp [HandlerGen.outOf] at h
+    exact C09_callback' o _ h.symm
+  · intro resp m ht
+    rw [ht] at h
+    cases resp with
+    | none => simp [HandlerGen.outOf, HandlerGen.outOfEff] at h; exact absurd h.symm (C09_callback' o _)
+    | some r =>
+      cases m with
+      | none => simp [HandlerGen.outOf, HandlerGen.outOfEff] at h; exact absurd h.symm (C09_callback' o _)
+      | some m => exact ⟨rfl, rfl⟩
+
 theorem C09_source_current : Gen.Facts.ssoChain = Expected.ssoChain ∧ Gen.Facts.sloChain = Expected.sloChain ∧ Gen.Facts.aqChain = Expected.aqChain ∧
     FactsUtil.sameHashes ["serviceprovider.NewServiceProvider", "serviceprovider.getSigningCertsFromMetadata", "signature.ValidateRedirect", "signature.verifyDSA",
-      "provider.IdentityProvider.callbackHandleFunc", "provider.Provider.GetMetadata", "provider.getMetadataCert"] = true :=
+      "provider.Provider.GetMetadata", "provider.getMetadataCert"] = true :=
   ⟨by decide, by decide, by decide, by decide⟩
 
 end C09
